@@ -64,7 +64,7 @@ def main():
                         finally:
                             xload.PYTHON_MAGIC_INT = saved
                     real_ok = real and co is not None and co.co_name in ("<module>", "?")
-                    gen_ok = (not real) and co is not None and bytes(bytearray(mwrap_code(co))) == b"d\x00S\x00d\x01" \
+                    gen_ok = (not real) and co is not None and bytes(bytearray(mwrap_code(co))) == mwrap.code_for(c["ver"], True) \
                         and getattr(co, "co_firstlineno", 300) in (300, -1)
                     code_ok = 1 if (real_ok or gen_ok) else 0
                     r = {"id": ident, "ver": c["ver"], "magic": c["magic"], "hdr": c["hdr"],
